@@ -407,3 +407,108 @@ func TestVerifC14(t *testing.T) {
 	h.Close("one generated pod (0-12 containers; amounts missing/zero/tiny/clamp-boundary/huge; QoS by label/annotation/none; " +
 		"0-5 rule callbacks first (node ratio set/changed/adjacent/removed/invalid, node SLO CFS switch) on one plugin instance; spec via annotation JSON or struct); non-trivial = BE pod with a spec and >=1 container; distinct by op line")
 }
+
+// ---- exhaustive small scope (thorough tier): every pod with <= 2 containers over a grid of amounts that sits on
+// every clamp / rounding boundary of the conversions, x CFS on/off x ratio none/1.5 ----
+
+func TestVerifC14Exhaustive(t *testing.T) {
+	h := vOpen("C14")
+	if h == nil {
+		t.Skip("VERIF_OUT not set")
+	}
+	vals := []int64{-1, 0, 1, 9, 10, 1000, 255999, 256000, 256001}
+	var ctrs []c14Ctr
+	for _, a := range vals {
+		for _, b := range vals {
+			for _, c := range []int64{-1, 0, 1, 1 << 30} {
+				ctrs = append(ctrs, c14Ctr{req: a, lim: b, mem: c})
+			}
+		}
+	}
+	idx := 0
+	run := func(cs []c14Ctr, cfs bool, pct int64) {
+		r := h.Begin(idx)
+		idx++
+		if r == nil {
+			return
+		}
+		p := newPlugin()
+		if !cfs {
+			p.rule.UpdateCFSQuotaEnabled(false)
+			h.Op("rule slo 0")
+			h.Obs("upd 1")
+		}
+		if pct > 0 {
+			p.rule.UpdateCPUNormalizationRatio(float64(pct) / 100)
+			h.Op("rule node %d", pct)
+			h.Obs("upd 1")
+		}
+		spec := &apiext.ExtendedResourceSpec{Containers: map[string]apiext.ExtendedResourceContainerSpec{}}
+		flat := []int64{}
+		for i, c := range cs {
+			cs2 := apiext.ExtendedResourceContainerSpec{}
+			if c.req >= 0 {
+				cs2.Requests = corev1.ResourceList{apiext.BatchCPU: *resource.NewQuantity(c.req, resource.DecimalSI)}
+			}
+			if c.lim >= 0 || c.mem >= 0 {
+				cs2.Limits = corev1.ResourceList{}
+				if c.lim >= 0 {
+					cs2.Limits[apiext.BatchCPU] = *resource.NewQuantity(c.lim, resource.DecimalSI)
+				}
+				if c.mem >= 0 {
+					cs2.Limits[apiext.BatchMemory] = *resource.NewQuantity(c.mem, resource.BinarySI)
+				}
+			}
+			spec.Containers[fmt.Sprintf("c%d", i)] = cs2
+			flat = append(flat, c.req, c.lim, c.mem)
+		}
+		labels := map[string]string{apiext.LabelPodQoS: string(apiext.QoSBE)}
+		podCtx := &protocol.PodContext{}
+		podCtx.Request.Labels = labels
+		podCtx.Request.ExtendedResources = spec
+		h.Op("pod 1 1 %d %s", len(cs), vInts(flat))
+		effPct := int64(-100)
+		if cfs && pct > 0 {
+			effPct = pct
+		}
+		h.Obs("eff %d %d", vB(cfs), effPct)
+		_ = p.SetPodResources(podCtx)
+		ps, pv, pok := c14Show(&podCtx.Response.Resources)
+		h.Obs("pod %s", ps)
+		if len(cs) > 0 {
+			h.Nontrivial()
+		}
+		for i := range cs {
+			cctx := &protocol.ContainerContext{}
+			cctx.Request.PodLabels = labels
+			c := spec.Containers[fmt.Sprintf("c%d", i)]
+			cctx.Request.ExtendedResources = &c
+			_ = p.SetContainerResources(cctx)
+			s, v, ok := c14Show(&cctx.Response.Resources)
+			h.Obs("ctr %s", s)
+			if ok && pok {
+				if v[0] > pv[0] || !c14QLe(v[1], pv[1]) || !c14QLe(v[2], pv[2]) {
+					h.Fail("C14:pod-tighter-exhaustive", "container %d %v vs pod %v", i, v, pv)
+				}
+			}
+		}
+		h.End()
+	}
+	for _, cfs := range []bool{true, false} {
+		for _, pct := range []int64{-1, 150} {
+			run(nil, cfs, pct)
+			for _, a := range ctrs {
+				run([]c14Ctr{a}, cfs, pct)
+			}
+			if cfs && pct < 0 {
+				for _, a := range ctrs {
+					for _, b := range ctrs {
+						run([]c14Ctr{a, b}, cfs, pct)
+					}
+				}
+			}
+		}
+	}
+	h.Extra("exhaustive", fmt.Sprintf("%d cases", idx))
+	h.Close("exhaustive: every BE pod with 0-1 containers (all 4 rule settings) and every pod with 2 containers (CFS on, no ratio) over req,lim in {-1,0,1,9,10,1000,255999,256000,256001} x mem in {-1,0,1,2^30}; non-trivial = at least one container")
+}
